@@ -363,6 +363,11 @@ func (w *twkbWriter) writeMultiPoint(mp MultiPoint) error {
 
 	for i := 0; i < numPoints; i++ {
 		pt := mp.PointN(i)
+		if pt.IsEmpty() {
+			// TWKB has no way to represent an empty Point inside a non-empty
+			// MultiPoint. Writing its (zero) coordinates would invent a point.
+			return fmt.Errorf("cannot represent empty Point at index %d of a non-empty MultiPoint", i)
+		}
 		w.writePointCoords(pt)
 	}
 	return nil
